@@ -1845,6 +1845,10 @@ class Wallet(object):
             return self.key(already_found_key.id)
         path = [pubk.path for pubk in public_keys if pubk.wallet.cosigner_id == self.cosigner_id][0]
         depth = self.cosigner[self.cosigner_id].main_key.depth + len(path.split("/")) - 1
+        # Take address index from the path of the cosigner keys: when several keys are created at once, or a
+        # path is given explicitly, it differs from the address_index argument
+        if path.split("/")[-1].isdigit():
+            address_index = int(path.split("/")[-1])
         if not name:
             name = "Multisig Key " + '/'.join(public_key_ids)
 
